@@ -113,6 +113,7 @@ pub fn hist_spec(id: &str, tier: &str) -> Option<(HistSpec, Info)> {
         accept,
         weights,
         types,
+        scale: false,
         max_uni: 14,
         min_uni: 2,
         min_ops: 0,
@@ -127,6 +128,7 @@ pub fn hist_spec(id: &str, tier: &str) -> Option<(HistSpec, Info)> {
         panic_ops: match id {
             "C01" => vec!["insert", "remove", "remove_keep_tree", "remove_children", "retain", "clear", "entry*", "vacant*", "occupied*", "get", "get_mut", "get_key_value", "contains_key", "collect", "from_iter", "view_mut.set", "view_mut.remove", "iter"],
             "C02" => vec!["get_lpm", "get_lpm_prefix", "get_lpm_mut"],
+            "C04" => vec!["insert", "remove", "remove_keep_tree", "remove_children", "retain", "clear", "entry*", "vacant*", "occupied*", "collect", "from_iter"],
             "C03" => vec!["iter*", "keys", "values*", "into_*", "ref_into_iter", "view_iter", "view_into_iter"],
             "C09" => vec!["cover*", "get_spm*", "get_lpm*"],
             "C10" => vec!["children*", "into_children", "remove_children", "retain"],
@@ -187,7 +189,9 @@ pub fn hist_spec(id: &str, tier: &str) -> Option<(HistSpec, Info)> {
             },
         ),
         "C15" => (
-            mk("C15", &[15], vec!["C15"], if tier == "thorough" { Weights::full() } else { Weights::full() }, all_types(), budget(tier, (440, 4, 40), (1300, 16, 200)), false, false, nt_c15),
+            // "remove exactly reverts insert" / "shape of a map built from the surviving keys": an entry that
+            // insert or remove did not actually add or take away is a C15 failure as well
+            mk("C15", &[15], vec!["C15", "C01:contents", "C01:remove:return", "C01:insert:return", "C01:set.remove:return", "C01:set.insert:return"], if tier == "thorough" { Weights::full() } else { Weights::full() }, all_types(), budget(tier, (440, 4, 40), (1300, 16, 200)), false, false, nt_c15),
             Info {
                 level: "exploration",
                 rule: "non-trivial = history in which a removal collapsed a branch (node count dropped by >=2) or retain removed >=2 entries; distinct by hash of the case",
@@ -398,6 +402,26 @@ pub fn parts(id: &str, tier: &str) -> Option<(Vec<Part>, Info)> {
                 big.weights.from_iter = 0;
                 big.weights.b_share = big.weights.b_share.min(10);
                 v.push(Part::Hist(big));
+            }
+            // scale: hundreds of entries (counter widths, long free lists, big sub-tries under one selector)
+            if let Some(Part::Hist(first)) = v.first() {
+                let mut sc = first.clone();
+                sc.label = match id {
+                    "C01" => "C01scale", "C02" => "C02scale", "C03" => "C03scale", "C04" => "C04scale", "C09" => "C09scale",
+                    "C10" => "C10scale", "C15" => "C15scale", "C16" => "C16scale", "C18" => "C18scale", _ => "C20scale",
+                };
+                sc.scale = true;
+                sc.max_ops = 16;
+                sc.cases = if tier == "thorough" { 60 } else { 14 };
+                sc.shards = if tier == "thorough" { 16 } else { 2 };
+                sc.full_queries = false;
+                sc.post = Post::None;
+                sc.weights.remove_children += 12;
+                sc.weights.retain += 8;
+                sc.weights.clear = 1;
+                sc.weights.from_iter = 0;
+                sc.weights.b_share = 20;
+                v.push(Part::Hist(sc));
             }
         }
         if id == "C01" && tier == "thorough" {
